@@ -81,7 +81,7 @@ RULE = (f"fault enumeration: runs 0..{NENUM - 1} enumerate every stall point - a
 PROBES = ["stall_in_handshake", "stall_in_request_line", "stall_in_titan_content",
           "complete_request_no_timeout", "late_data_at_boundary", "slow_handler_5T",
           "slow_middleware", "dribble", "stall_after_large_declared_size",
-          "request_as_several_records_in_one_flight", "damaged_stream_then_silence", "ipv6_peer", "wall_clock_stepped_during_the_run", "chain_undecided_at_deadline_body_incomplete", "refused_upload_with_content_outstanding", "disconnect_near_deadline", "timeout_40_observed", "via_start_server"]
+          "request_as_several_records_in_one_flight", "damaged_stream_then_silence", "ipv6_peer", "wall_clock_stepped_during_the_run", "loop_blocked_across_the_deadline", "chain_undecided_at_deadline_body_incomplete", "refused_upload_with_content_outstanding", "disconnect_near_deadline", "timeout_40_observed", "via_start_server"]
 COMPONENTS = {
     "real": ["nauyaca.server.protocol (request timer)", "nauyaca.server.tls_protocol (handshake "
              "phase)", "asyncio sslproto handshake/shutdown timers", "OpenSSL"],
@@ -142,7 +142,7 @@ def run_one(ch):
         s = ch.choose("shape", len(SHAPES))
         name, stream = SHAPES[s]
         sc["ipv6"] = ch.chance("ipv6", 0.3)
-        r = ch.choose("scen", 10, [4, 3, 2, 2, 2, 2, 2, 2, 2, 2])
+        r = ch.choose("scen", 11, [4, 3, 2, 2, 2, 2, 2, 2, 2, 2, 2])
         sc["sent"] = stream
         if r == 0:      # late data around the deadline
             k = ch.choose("latek", len(stream))
@@ -188,6 +188,16 @@ def run_one(ch):
             sc["sent"] = stream
             sc["big_declared"] = True
             sc["case"] = f"big-declared-stall/{size}/have={have}"
+        elif r == 10:
+            # the rest of the request arrives a quarter of a second BEFORE the deadline while the
+            # event loop is blocked across it (long callback, GC / VM pause): when the loop comes
+            # back, the data is in the socket and the timer is due - the request is complete
+            k = ch.choose("blk.k", len(stream))
+            sc["script"] = ([("send", stream[:k])] if k else []) + \
+                [("sleep_until_rel", T - 0.25), ("send", stream[k:]), ("stall",)]
+            sc["late"] = (k, -0.25)
+            sc["block"] = (T - ch.pick("blk.from", [0.4, 0.3]), ch.pick("blk.for", [0.5, 0.8, 3.0]))
+            sc["case"] = f"loop-blocked-across-deadline/{name}/k={k}/{sc['block']}"
         elif r == 9:
             # a chain that is still deciding when the request timer is due, while the upload's
             # body is incomplete and the peer silent: the timer answers, once and on time
@@ -303,6 +313,8 @@ def run_one(ch):
             server = await sw.start_protocol_server(sim, mode, spy, mw, upspy)
         t0 = net.now
         out["t0"] = t0
+        if sc.get("block"):
+            sim.block_loop(t0 + sc["block"][0], sc["block"][1])
         src = ("2001:db8::9", 50000, 0, 0) if sc.get("ipv6") else ("10.0.0.9", 50000)
         ep = raw_connect(net, HOST, 1965, src=src, c2s=WholePolicy(0.001), s2c=WholePolicy(0.001),
                          tag="k0")
@@ -440,7 +452,8 @@ def run_one(ch):
                             "open 31 s later", **ctx)
         elif late is not None:
             k, delta = late
-            limit = t_session + T + max(0.0, delta) + (sc["hdelay"] or 0) + 1.0
+            limit = t_session + T + max(0.0, delta) + (sc["hdelay"] or 0) + 1.0 + \
+                (sc["block"][1] if sc.get("block") else 0.0)
             if t_close is None or t_close > limit:
                 res.violate(f"C15/late-data-not-closed/{site}",
                             "data arrived around the deadline; the connection was not ended", **ctx)
@@ -506,6 +519,8 @@ def run_one(ch):
         res.stats["dribble"] += 1
     if sc.get("ipv6"):
         res.stats["ipv6_peer"] += 1
+    if sc.get("block"):
+        res.stats["loop_blocked_across_the_deadline"] += 1
     if sc.get("wallstep"):
         res.stats["wall_clock_stepped_during_the_run"] += 1
     if sc.get("slowchain"):
